@@ -67,3 +67,21 @@ impl FfiChannel {
         ensures final(self).calls == old(self).calls.push(FfiCall::WriteMultipleRegisters(param, value.range, value.values@)) { unimplemented!() }
 }
 //@trusted rodbus::client::FfiChannel (FFI unit): assumed contract - every method is one logged call with exactly the arguments it was given (the callback is opaque; that it fires exactly once is not decided)
+
+// the listener interface and the retry strategy factory of the rodbus crate, as the FFI crate uses them
+pub struct MaybeAsync<T> { pub v: T }
+impl<T> MaybeAsync<T> {
+    #[verifier::external_body]
+    pub fn ready(result: T) -> (r: Self) ensures r.v == result { unimplemented!() }
+}
+pub trait Listener<T> {
+    fn update(&mut self, value: T) -> MaybeAsync<()>;
+}
+pub trait RetryStrategy {
+    spec fn cfg_min(&self) -> Duration;
+    spec fn cfg_max(&self) -> Duration;
+}
+#[verifier::external_body]
+pub fn doubling_retry_strategy(min: Duration, max: Duration) -> (r: Box<dyn RetryStrategy>)
+    ensures r.cfg_min() == min, r.cfg_max() == max { unimplemented!() }
+//@trusted rodbus::doubling_retry_strategy (FFI unit): assumed contract - the strategy is configured with the given minimum and maximum (the strategy itself is decided for C14 on the real code)
